@@ -56,6 +56,10 @@ INTS = [0, 1, -1, 2 ** 31, 2 ** 53, 2 ** 53 + 1, 2 ** 63 - 1, 2 ** 63, 2 ** 63 +
 
 def rnd_number(rng):
     r = rng.random()
+    if r < 0.08:
+        # doubles that are exactly representable in single precision (their shortest f32 spelling is shorter — and a different double)
+        x = struct.unpack("<f", struct.pack("<I", rng.choice([rng.randrange(0x30000000, 0x4f000000), rng.randrange(0x00800000, 0x7f000000)])))[0]
+        return repr(x if rng.random() < 0.8 else -x)
     if r < 0.3:
         k = rng.random()
         n = rng.choice(INTS) if k < 0.45 else (rng.choice(G.BAND_NUMS) + rng.choice([0, 1, -1]) if k < 0.65 else rng.randrange(-10 ** 6, 10 ** 6))
@@ -93,6 +97,18 @@ def rnd_rows(rng):
             vals[var] = "[%s]" % rng.choice(g)
         rows.append("{" + ",".join("\"%s\":%s" % (k, vals[k]) for k in keys) + "}")
     return rng.choice(["[%s]", "{\"rows\":[%s]}", "[[%s]]"]) % ",".join(rows)
+
+
+def rnd_big_object(rng):
+    """objects with 21 .. 70 members, some names repeated (the last one counts), in random order"""
+    n = rng.choice([21, 22, 25, 33, 50, 70])
+    names = ["k%02d" % i for i in range(n)]
+    members = [(k, str(rng.randrange(0, 9))) for k in names]
+    for _ in range(rng.randrange(1, 6)):
+        members.insert(rng.randrange(0, len(members) + 1), (rng.choice(names), str(rng.randrange(1000, 2000))))
+    if rng.random() < 0.5:
+        rng.shuffle(members)
+    return "{" + ",".join("\"%s\":%s" % kv for kv in members) + "}"
 
 
 def rnd_json(rng, depth=3):
@@ -295,6 +311,7 @@ def run(ctx):
     texts += [rnd_json(rng, rng.choice([1, 2, 3, 4])) for _ in range(4000 if q else 600000)]
     texts += [rnd_number(rng) for _ in range(3000 if q else 400000)]
     texts += [rnd_rows(rng) for _ in range(600 if q else 60000)]
+    texts += [rnd_big_object(rng) for _ in range(300 if q else 30000)]
     texts += [rnd_string(rng) for _ in range(500 if q else 50000)]
     texts += [malformed(rng) for _ in range(1000 if q else 150000)]
     texts += ["[" * d + "1" + "]" * d for d in (1, 64, 126, 127, 128, 129, 500)]
